@@ -527,9 +527,7 @@ theorem curvature_euler_formula (s : Sym) (g : Good2d s) :
         - 2 * ((conesOf (typesOf s.data)).map dq).sum - ((cornersOf (typesOf s.data)).map dq).sum :=
   curvature_euler g
 
-example : Good2d ex332 := ⟨by
-  have : ex332.data = exData332 := rfl
-  rw [this]; exact exData332_valid, by decide +kernel, by decide +kernel⟩
+example : Good2d ex632 := ex632_good
 
 /-- what the decidable monitor `D2.symbolExact` (evaluated by the driver on every explored
     symbol) establishes about the model's orbifold symbol: it is defined, its cones are the cone
